@@ -418,7 +418,7 @@ func newC14World(c *chain.Chain, n, m int64, nProv, nSameDomain, nIdle, nUnreg i
 
 func TestC14(t *testing.T) {
 	rec := ev.For("C14")
-	rec.Describe("stateful fork-mode histories (rapid state machine): 6-10 registered providers with distinct domains that each hold a proof, 0-2 sharing the prover's domain, 0-2 registered but idle, 0-2 unregistered accounts; (AttestFormSize n, AttestMinToPass m) with 0 <= m <= n <= 6; provers request attestation forms, anybody requests report forms, then arbitrary attest/report messages by named, unnamed and repeated signers and the prover itself against open, never-existing and consumed forms, second requests after consumption, height advancing between messages. Model: signed is a subset of named; the action fires at the step a named provider signs and |signed| >= m, once, and consumes the form. After every message LastProven / list membership of every (account,file) and the stored form (existence, complete flags) must equal the model; a fresh form must name exactly n distinct registered providers that hold a proof, never the prover. Non-trivial = a repeated or unnamed signature arrived before quorum; distinct = distinct traces.",
+	rec.Describe("stateful fork-mode histories (rapid state machine): 0-10 (mostly 6-10) registered providers with distinct domains that each hold a proof (populations smaller than the form size included), 0-2 sharing the prover's domain, 0-2 registered but idle, 0-2 unregistered accounts; (AttestFormSize n, AttestMinToPass m) with 0 <= m <= n <= 6; provers request attestation forms, anybody requests report forms, then arbitrary attest/report messages by named, unnamed and repeated signers and the prover itself against open, never-existing and consumed forms, second requests after consumption, height advancing between messages. Model: signed is a subset of named; the action fires at the step a named provider signs and |signed| >= m, once, and consumes the form. After every message LastProven / list membership of every (account,file) and the stored form (existence, complete flags) must equal the model; a fresh form must name exactly n distinct registered providers that hold a proof, never the prover. Non-trivial = a repeated or unnamed signature arrived before quorum; distinct = distinct traces.",
 		"if the prover has already been removed when a quorum completes, the code errors out and keeps the form; only 'no effect' is asserted there",
 		"CheckWindow is set out of reach so that reward blocks do not interfere")
 	c := chain.New(chain.GenesisOpts{NumAccounts: 1, Balance: sdk.NewCoins(sdk.NewInt64Coin("ujkl", 1_000_000_000_000)),
@@ -431,7 +431,7 @@ func TestC14(t *testing.T) {
 	search(t, rec, "history", budget(1200, 320000), 30, func(rt *rapid.T) {
 		n := rapid.Int64Range(0, 6).Draw(rt, "formSize")
 		m := rapid.Int64Range(0, n).Draw(rt, "minToPass")
-		w := newC14World(c, n, m, rapid.IntRange(6, 10).Draw(rt, "providers"), rapid.IntRange(0, 2).Draw(rt, "sameDomain"), rapid.IntRange(0, 2).Draw(rt, "idle"), rapid.IntRange(0, 2).Draw(rt, "unregistered"),
+		w := newC14World(c, n, m, rapid.OneOf(rapid.IntRange(6, 10), rapid.IntRange(0, 10)).Draw(rt, "providers"), rapid.IntRange(0, 2).Draw(rt, "sameDomain"), rapid.IntRange(0, 2).Draw(rt, "idle"), rapid.IntRange(0, 2).Draw(rt, "unregistered"),
 			rapid.SampledFrom([]string{"https://b.otherprover.net:3333", "https://b.otherprover.net:3333", "http://localhost:3333", "http://storage-node", "http://10.0.0.5:3333", "https://s0.dom0.com"}).Draw(rt, "proverIP"),
 			rapid.IntRange(0, 2).Draw(rt, "singleLabelHosts"))
 		fail := func(sig, msg string) {
